@@ -37,6 +37,22 @@ def flags_of(ids):
     return f
 
 
+def zero_count_bitmap(dec):
+    """D19: a bitmap defined by a DELAYED replication of 031031 whose factor is 0 in some subset
+    (recognised in the interpreted decode: operator, optional 236000, class-31 factor with value 0)"""
+    if not dec or dec[0] != 'ok':
+        return False
+    for vals, labels in zip(dec[1], dec[2]):
+        for i, l in enumerate(labels):
+            if l in ('222000', '223000', '224000', '225000', '232000'):
+                j = i + 1
+                if j < len(labels) and labels[j] == '236000':
+                    j += 1
+                if j < len(labels) and labels[j] in ('031000', '031001', '031002') and vals[j] == 0:
+                    return True
+    return False
+
+
 def dec_impl(b, **kw):
     try:
         with lib.time_limit(60):
@@ -98,6 +114,7 @@ def check_case(ctx, c, k_cache):
             'edition': c['edition'], 'compressed': c['compressed']}
     fl = flags_of(c['ids'])
     fl['scoped'] = c.get('scoped', True)
+    fl['zero_count_bitmap'] = zero_count_bitmap(c.get('impl_dec'))
     e = c['impl_enc']
     # --- encode: compiled vs interpreted (implementation), compiled (model)
     cc = dict(c)
@@ -153,13 +170,29 @@ def run(ctx):
                 'the compiled run is compared with the extracted model (Compile.compile + exec); cache sizes 0,1,2,5 with '
                 'shuffled message orders against fresh interpreted decodes; save/load through JSON.')
     rng = ctx.rng
-    n = ctx.n(110, 5000)
+    n = ctx.n(200, 5000)
     cases = P.build_cases(ctx, n, gen_kwargs=dict(size=6), nsub_choices=(1, 1, 2, 3), compressed=(False, False, True),
                           versions=(33, 33, 25), editions=(4,))
     # Table D sequences as programs
     p = tmplgen.pools(33)
+    def size_of(k, depth=0):
+        # rough number of values one application of sequence k produces (replication counted x3)
+        if depth > 8 or k not in p.d:
+            return 1
+        n, mult = 0, []
+        for m in p.d[k]:
+            if m >= 300000:
+                n += size_of(m, depth + 1)
+            elif 100000 <= m < 200000:
+                n += 1
+            else:
+                n += 1
+        reps = sum(1 for m in p.d[k] if 100000 <= m < 200000)
+        return n * (3 ** min(reps, 3))
     seqs = sorted(p.d)
-    for s in rng.sample(seqs, ctx.n(25, len(seqs))):
+    if ctx.quick:
+        seqs = [k for k in seqs if size_of(k) <= 120]
+    for s in rng.sample(seqs, ctx.n(30, len(seqs))):
         cases.append({'ids': [s], 'version': 33, 'edition': 4, 'nsub': rng.choice([1, 2]), 'compressed': rng.random() < 0.3,
                       'forced': '-', 'seed': rng.randrange(1, 2 ** 32), 'maxrep': 2, 'features': {'table-d-sequence': 1}, 'shared': None})
     for c in cases:
@@ -167,6 +200,8 @@ def run(ctx):
             c['shared'] = c['compressed']
     # witnesses of recorded findings (run first on every run)
     corpus = [
+        # D19: bitmap defined by a delayed replication with factor 0
+        {'ids': [12001, 7001, 222000, 101000, 31001, 31031, 12001], 'forced': '31001=0'},
         # D14: a marker operator while 204YYY is in force
         {'ids': [12001, 224000, 236000, 101001, 31031, 8023, 204008, 31021, 224255, 204000], 'forced': '31031=0'},
         # D5: 203000 (cancel) before a marker operator on the redefined element
@@ -196,7 +231,8 @@ def run(ctx):
         with lib.time_limit(300):
             di = check_case(ctx, c, k_cache)
         fl = flags_of(c['ids'])
-        if di is not None and di[0] == 'ok' and not (fl['marker_under_204'] or fl['marker_after_203000']):
+        if di is not None and di[0] == 'ok' and not (fl['marker_under_204'] or fl['marker_after_203000']
+                                                     or zero_count_bitmap(di)):
             good.append((c, di))
         ctx.sample({'ids': c['ids'], 'cache_max': k_cache}, limit=3)
     # save / load
